@@ -317,6 +317,8 @@ def _invisible(ctx, em):
     ctx.require(calls, 'fs.write_safe call in _cache')
     for call in calls:
         pref = K.kwarg(call, 'prefix')
+        if pref is not None:
+            pref = K.rexpr(cache, pref)
         lit = None
         if isinstance(pref, ast.BinOp) and isinstance(pref.op, ast.Mod) and \
                 isinstance(pref.left, ast.Constant):
@@ -395,13 +397,24 @@ def _content(ctx, em):
     for node, call in writes:
         lam = call.args[1] if len(call.args) > 1 else None
         dumped = None
-        if isinstance(lam, ast.Lambda) and isinstance(lam.body, ast.Call) \
-                and lam.body.args:
-            dumped = N.txt(lam.body.args[0])
-        ctx.ob('C12.5', cache, node, dumped is not None and
-               defs.get(dumped, '').startswith('zkutils.get(') and
-               defs.get(defs.get(dumped, '')[:-1].split(', ')[-1], '') ==
-               'z.path.scheduled(%s)' % app,
+        inner = None
+        if isinstance(lam, ast.Lambda):
+            inner = lam.body
+        elif isinstance(lam, ast.Name) and lam.id in cache.nested():
+            body = K._fn_body(cache.nested()[lam.id].raw)
+            if len(body) == 1 and isinstance(body[0], (ast.Expr,
+                                                       ast.Return)):
+                inner = body[0].value
+        if isinstance(inner, ast.Call) and inner.args:
+            dumped = N.txt(inner.args[0])
+        ddef = [s.value for s in K.walk_no_nested(cache.node)
+                if isinstance(s, ast.Assign) and
+                N.txt(s.targets[0]) == dumped]
+        okd = len(ddef) == 1 and isinstance(ddef[0], ast.Call) and \
+            K.callee_text(ddef[0]) == 'zkutils.get' and \
+            len(ddef[0].args) == 2 and \
+            K.rtxt(cache, ddef[0].args[1]) == 'z.path.scheduled(%s)' % app
+        ctx.ob('C12.5', cache, node, dumped is not None and okd,
                'the object dumped is the /scheduled manifest of that '
                'instance: %s = %s' % (dumped, defs.get(dumped)),
                construct='dumped object')
@@ -440,21 +453,43 @@ def _content(ctx, em):
             adefs.setdefault(sub.targets[0].id, []).append(sub.value)
 
     def fresh(atom):
+        # <placement creation time, s> <= <change time of the cached file>,
+        # over the locals of _cache or, seen through a helper, over the
+        # expressions themselves
+        from fractions import Fraction
         key = atom.key
-        if key[0] != 'cmp' or key[1] not in ('<=', '<') or \
-                len(key[2]) != 2:
+        if key[0] != 'cmp' or key[1] != '<=' or len(key[2]) != 2:
             return False
         coef = dict(key[2])
         older = [t for t, c in coef.items() if c > 0]
         newer = [t for t, c in coef.items() if c < 0]
-        if len(older) != 1 or len(newer) != 1 or key[1] != '<=':
+        if len(older) != 1 or len(newer) != 1 or '' in coef:
             return False
-        pdef = adefs.get(older[0], [])
-        mdef = [v for v in adefs.get(newer[0], [])
-                if not (isinstance(v, ast.Constant) and v.value is None)]
-        return len(pdef) == 1 and K.exact_ms_to_s(pdef[0]) is not None and \
-            len(mdef) == 1 and N.txt(mdef[0]).startswith('os.stat(') and \
-            N.txt(mdef[0]).endswith('.st_ctime')
+        ratio = Fraction(coef[older[0]]) / -Fraction(coef[newer[0]])
+        pdef = adefs.get(older[0], []) if older[0].isidentifier() else None
+        if pdef is not None:
+            okp = len(pdef) == 1 and ratio == 1 and \
+                K.exact_ms_to_s(pdef[0]) is not None
+        else:
+            try:
+                term = ast.parse(older[0], mode='eval').body
+            except SyntaxError:
+                term = None
+            okp = (ratio == Fraction(1, 1000) and
+                   older[0].rsplit('.', 1)[-1] in ('ctime', 'created')) or \
+                (ratio == 1 and term is not None and
+                 K.exact_ms_to_s(term) is not None)
+        if newer[0].isidentifier():
+            mdef = [v for v in adefs.get(newer[0], [])
+                    if not (isinstance(v, ast.Constant) and
+                            v.value is None)]
+            okm = len(mdef) == 1 and \
+                N.txt(mdef[0]).startswith('os.stat(') and \
+                N.txt(mdef[0]).endswith('.st_ctime')
+        else:
+            okm = newer[0].startswith('os.stat(') and \
+                newer[0].endswith('.st_ctime')
+        return okp and okm
     for node in graph.nodes:
         if node.kind != 'return' or any(node is w for w, _c in writes):
             continue
